@@ -900,6 +900,8 @@ class Emit:
         if k == "struct":
             path, fs, base = e[1], e[2], e[3]
             path = [self.cur_owner if s == "Self" else s for s in path]
+            if "::".join(path[-2:]) in self.unit.get("err_structs", {}):
+                return self.unit["err_structs"]["::".join(path[-2:])]        # an error value: its fields (messages, paths) are not modelled
             if path[-1] in self.structs and not (len(path) >= 2 and path[-2] in self.enums):
                 body = ", ".join(f"{lname(f)} := {self.ex(v)}" for f, v in fs)
                 if base is not None: return "{ " + self.ex(base) + " with " + body + " }"
@@ -1162,8 +1164,40 @@ class Emit:
             return [ind + x for x in self.pre] + L
         finally:
             self.pre = saved
+    def peel_spawn(self, e):
+        """`tokio::task::spawn_blocking(move || { … }).await[.map_err(…)][?][.and_then(|r| r)][.map(F)]` -> (closure, F | None)"""
+        mapf = None
+        while True:
+            if e[0] == "try": e = e[1]; continue
+            if e[0] == "mcall" and e[2] in ("map_err", "with_context", "context"): e = e[1]; continue
+            if e[0] == "mcall" and e[2] == "and_then" and len(e[3]) == 1 and e[3][0][0] == "closure" and len(e[3][0][1]) == 1 \
+               and e[3][0][1][0][0] == "bind" and e[3][0][2] == ("path", [e[3][0][1][0][1]]): e = e[1]; continue
+            if e[0] == "mcall" and e[2] == "map" and len(e[3]) == 1 and e[3][0][0] == "path" and mapf is None: mapf = e[3][0]; e = e[1]; continue
+            break
+        if e[0] == "call" and e[1][0] == "path" and e[1][1][-1] == "spawn_blocking" and len(e[2]) == 1 and e[2][0][0] == "closure" and not e[2][0][1]:
+            return e[2][0], mapf
+        return None
     def _tail(self, e, ind, mode):
         k = e[0]
+        sp = self.peel_spawn(e) if (mode == "ret" and self.effects and self.cur_result) else None
+        if sp is not None:
+            # the closure runs in place; its own `return` / `?` leave the CLOSURE (a nested `do`), then the RAII guards of
+            # its scope are dropped (operation `scope_exit` of the spec), then the function returns the closure's result
+            clo, mapf = sp
+            body = clo[2] if clo[2][0] == "block" else ("block", [], clo[2])
+            L = [ind + "let __sb ← Rs.capture (do"] + self.seq(body, ind + "    ", "ret")
+            L[-1] = L[-1] + ")"
+            se = self.unit.get("scope_exit", {}).get(self.cur_fn)
+            if se:
+                self.cur_uses_ext = True
+                L.append(ind + f"let _ ← ext.{se} ()")
+            L.append(ind + "let __v ← Rs.liftE __sb")
+            if mapf is not None:
+                raw, eff, res = self._call(("call", mapf, [("path", ["__v"])]))
+                L.append(ind + f"return {raw}")
+            else:
+                L.append(ind + "return __v")
+            return L
         if k in ("if", "iflet", "match") and not self.pure_expr(e):
             return self.branching(e, ind, mode)
         if k == "block": return self.seq(e, ind, mode)
@@ -1308,7 +1342,10 @@ class Emit:
             if fuel is None: raise Unsupported("while loop without a fuel bound in the spec")
             L = [ind + f"for _ in [0:{fuel}] do", ind + f"  if !({self.ex(e[1])}) then break"]
             return L + self.seq(e[2], ind + "  ", "unit")
-        if k == "loop": raise Unsupported("loop")
+        if k == "loop":
+            fuel = self.unit.get("fuel", {}).get(self.cur_fn)
+            if fuel is None: raise Unsupported("loop without a fuel bound in the spec")
+            return [ind + f"for _ in [0:{fuel}] do"] + self.seq(e[1], ind + "  ", "unit")
         if k == "mcall":
             recv, m, args = e[1], e[2], e[3]
             if m in self.unit.get("skip_method_stmts", []): return []
@@ -1348,26 +1385,34 @@ class Emit:
             if self.effects and self.call_is_effectful(e):
                 return [ind + f"let _ ← {self.ex(e)[3:-1] if self.ex(e).startswith('(← ') else self.ex(e)}"]
             raise Unsupported(f"method call statement .{m}()")
-        if k == "try" and e[1][0] == "mcall" and self.ext_methods.get(e[1][2], {}).get("assign_arg") is not None:
-            mc = e[1]; em = self.ext_methods[mc[2]]; a = mc[3][em["assign_arg"]]
+        if k == "try" and self.strip_adapt(e[1])[0] == "mcall" and self.ext_methods.get(self.strip_adapt(e[1])[2], {}).get("assign_arg") is not None \
+           and not self.ext_methods[self.strip_adapt(e[1])[2]].get("returns_pair"):
+            mc = self.strip_adapt(e[1]); em = self.ext_methods[mc[2]]; a = mc[3][em["assign_arg"]]
             if a[0] != "path" or len(a[1]) != 1: raise Unsupported("out-parameter that is not a local variable")
             v = self.ex(e)
             return [ind + f"{lname(a[1][0])} := {v}"]
         if k == "try":
             v = self.ex(e)
             return [ind + f"let _ ← {v[3:-1]}"] if v.startswith("(← ") and v.endswith(")") else [ind + f"let _ := {v}"]
+        if k == "call" and e[1][0] == "path" and "::".join(e[1][1]) in self.unit.get("skip_calls", []): return []
         if k == "call" and self.effects and self.call_is_effectful(e):
             v = self.ex(e)
             return [ind + f"let _ ← {v[3:-1]}"]
         raise Unsupported(f"statement {k}")
+    def strip_adapt(self, e):
+        while e[0] == "mcall" and ((e[2] in ERASED_METHODS and not e[3]) or e[2] in ("map_err", "with_context", "context")):
+            e = e[1]
+        return e
     def pair_read(self, s):
         """`[let [mut]] n = h.m(&mut buf)?` where the world operation `m` (spec: returns_pair) answers (result, new buffer)"""
         if s[0] == "let" and s[1][0] == "bind" and s[4] is not None: target, decl, init = lname(s[1][1]), ("let mut" if s[2] else "let"), s[4]
         elif s[0] == "expr" and s[1][0] == "assign" and s[1][1] == "=" and s[1][2][0] == "path" and len(s[1][2][1]) == 1:
             target, decl, init = lname(s[1][2][1][0]), None, s[1][3]
         else: return None
-        if init[0] != "try" or init[1][0] != "mcall": return None
-        mc = init[1]; em = self.ext_methods.get(f"{mc[2]}/{len(mc[3])}", self.ext_methods.get(mc[2]))
+        if init[0] != "try": return None
+        mc = self.strip_adapt(init[1])
+        if mc[0] != "mcall": return None
+        em = self.ext_methods.get(f"{mc[2]}/{len(mc[3])}", self.ext_methods.get(mc[2]))
         if not em or not em.get("returns_pair"): return None
         a = mc[3][em["assign_arg"]]
         if a[0] != "path" or len(a[1]) != 1: raise Unsupported("out-parameter that is not a local variable")
